@@ -86,7 +86,7 @@ def num_eq(text, value):
 class DocGen:
     def __init__(self, rng, cat=None, hostile_strings=True, adversarial_names=True, dynamic=0.0, callbacks=0.0,
                  max_depth=5, max_fanout=6, max_objects=40, layout_attached=True, allow_controls=False,
-                 allow_cr=True, max_bindings=6, groups=True, pseudo=True):
+                 allow_cr=True, max_bindings=6, groups=True, pseudo=True, components=None):
         self.rng = rng
         self.cat = cat or catalog.load()
         self.hostile = hostile_strings
@@ -102,6 +102,7 @@ class DocGen:
         self.max_bindings = max_bindings
         self.groups = groups
         self.pseudo = pseudo
+        self.components = components or {}   # custom component name -> base class (files on disk)
         self.used_ids = set()
         self.n_objects = 0
         self.sources = {}   # type -> list of (id, expr) usable in dynamic expressions
@@ -199,6 +200,8 @@ class DocGen:
         r = rng.random()
         if r < 0.2 and depth + 1 < self.max_depth:
             cls = rng.choice(CONTAINERS + ["QTabWidget"])
+        elif self.components and r < 0.45:
+            cls = rng.choice(sorted(self.components))
         else:
             cls = rng.choice(LEAVES)
         c = self._new(parent, cls, "widget")
@@ -277,7 +280,7 @@ class DocGen:
     def _collect_sources(self, objs):
         src = {"bool": [], "int": [], "QString": [], "double": []}
         for o in objs:
-            if not o.id:
+            if not o.id or o.cls in self.components:
                 continue
             if self.cat.is_a(o.cls, "QAbstractButton") and o.cls != "QDialogButtonBox":
                 src["bool"].append("%s.checked" % o.id)
@@ -305,7 +308,7 @@ class DocGen:
         if o.kind == "separator":
             o.bindings.append(self._mk(o, ("separator",), "true", "const", None, surface="pseudo"))
             return
-        props = self.cat.props(o.cls)
+        props = self.cat.props(self.components.get(o.cls, o.cls))
         names = [n for n, (p, c) in props.items()
                  if p.get("write") and n not in PSEUDO and n not in SKIP_PROPS]
         rng.shuffle(names)
@@ -511,7 +514,7 @@ class DocGen:
         if t.endswith("*"):
             return None
         # enums and flags
-        res = self.cat.resolve_enum(o.cls, t)
+        res = self.cat.resolve_enum(self.components.get(o.cls, o.cls), t)
         if res is not None:
             owner, e = res
             vals = self.cat.enum_values(owner, e)
@@ -609,14 +612,16 @@ class DocGen:
 
     def _callback(self, o):
         rng = self.rng
-        sigs = self.cat.methods(o.cls, kinds=("signals",))
+        sigs = self.cat.methods(self.components.get(o.cls, o.cls), kinds=("signals",))
         cands = []
         for n, ms in sigs.items():
             if n in ("destroyed", "objectNameChanged"):
                 continue
             sets = [tuple(a["type"] for a in m.get("arguments", [])) for (_, m, _) in ms]
             longest = max(sets, key=len)
-            if all(longest[:len(s)] == s for s in sets):
+            simple = all(t in ("bool", "int", "uint", "double", "QString") or (t.endswith("*") and t[:-1] in self.cat.by)
+                         for t in longest)
+            if simple and all(longest[:len(s)] == s for s in sets):
                 cands.append((n, longest))
         if not cands:
             return
